@@ -15,10 +15,21 @@ AMBIENT_DEPENDS = ("locale",)
 RULE = ("DateTimes = boundary grid (years 1000/9999, leap days, midnight/noon/12h-24h edges, every microsecond width) x zones (named zones incl. "
         "half-hour/45-minute/negative/sub-minute-LMT offsets, fixed offsets, naive) + seeded random ones. Streams: token-grid (every token the "
         "_TOKENS regex can produce, one separator-joined format per DateTime, locale en), locale-tokens (each localizable token x 27 locales), "
+        "locale-ordinals (Do Mo Qo DDDo wo do in 27 locales on the days of the year where a CLDR ordinal rule changes category - 1, 8, 11, 80, 101, 108, 111, 211, 280, 301 ... - "
+        "checked against the CLDR category of the NUMBER and the documented suffix table), "
         "sequences (random token sequences with literal separators, [..] and backslash escapes), named (all to_*_string helpers), "
         "roundtrip-full / roundtrip-names / fill-now (Formatter.parse(dt.format(fmt), fmt, now, locale) with an explicit now; full-date formats also go "
         "through pendulum.from_format), nonmatching (corrupted strings must raise ValueError), parse-misc (direct parse inputs: 12h/meridiem, "
-        "quarters, weekdays, ordinal dates, two-digit years). Every case is compared model vs implementation in both backends and checked "
+        "quarters, weekdays, ordinal dates, two-digit years, integer timestamps alone and next to other tokens), roundtrip-timestamp (tokens X and x, "
+        "format then from_format, at the structurally special places of the calendar: the three days around every century end 0100..9900 second by "
+        "second at the day boundaries, 400-year boundaries, year ends of every position in the 4/100/400-year cycles, leap days and Feb 28/Mar 1 of "
+        "centurial and ordinary years, month ends, the first and last representable seconds, the epoch, powers of two and ten of the count, seeded "
+        "random instants; each instant in UTC and, every ninth, the same instant in a fixed offset or named zone; modelled: X/x are inside the Coq "
+        "model, local_time per backend), session (ONE case = a whole process history run in order in one process: set_locale with shipped names in "
+        "several spellings and with names that are REJECTED, interleaved with format()/Formatter.parse/pendulum.from_format calls WITHOUT a locale "
+        "argument, with an explicit one and with an empty one, the same format string — carrying localized month/day tokens — used under different "
+        "defaults; every output is compared with the Gallina state machine Model/FormatterSession.v and checked by the round-trip oracle under the "
+        "locale that the last ACCEPTED set_locale names). Every case is compared model vs implementation in both backends and checked "
         "against a stdlib oracle (strftime / calendar / integer arithmetic / field equality after the round trip). A case is non-trivial when "
         "it is a distinct (function, arguments) tuple.")
 EXHAUSTIVE = {"quick": False, "thorough": False}
@@ -28,10 +39,18 @@ TRUSTED = ["hand model of Formatter.format/_format_token/_format_localizable_tok
            "_REGEX_TOKENS as regex ASTs, _PARSE_TOKENS, _FORMATS, to_*_string bodies, 27 locales incl. the ordinal lambdas) are translated from /repo on every run",
            "CPython re semantics (leftmost match, ordered alternation, greedy quantifiers with backtracking, re.sub treating a None replacement as empty) "
            "are modelled by Model/FormatterParse.mre and the tokenizers; re.escape by its special-character table",
-           "zoneinfo (utcoffset/tzname of the case DateTimes) is the specification side for the zone inputs; the implementation's own values are echoed and compared"]
+           "zoneinfo (utcoffset/tzname of the case DateTimes) is the specification side for the zone inputs; the implementation's own values are echoed and compared",
+           "timestamp tokens: float(text) / str(float) of Formatter._check_parsed are modelled on integers (Model/FormatterParse.ts_of_text: exact for integer text below 10^15, "
+           "argument in the comment there) and validated by the roundtrip-timestamp / parse-misc correspondence; helpers.local_time is the translated pure-Python function "
+           "(Gen/Helpers.v) or the hand model of the compiled one (Model/RustHelpers.v, C15), both proved equal to the calendar in Proofs/LocalTime.v",
+           "pendulum.set_locale/get_locale, Locale.load/normalize_locale (ASCII names) and the `locale or get_locale()` defaults of Formatter.format/parse are a hand model "
+           "(Model/FormatterSession.v) compared output by output on whole call histories (stream session)"]
 ASSUMPTIONS = ["utcoffset() is a whole number of seconds (true of every pendulum timezone); then int(total_seconds()/60) is truncation of offset/60 (exact: |offset| < 2^53)",
                "\\d and int() are exercised with ASCII digits only (Python's \\d also matches other Unicode decimal digits; not modelled)",
-               "from_format: X/x (float timestamps), an empty [] escape, and token 'a' with non-ASCII day periods are outside the modelled fragment (model answers 'unsupported'; not generated)",
+               "from_format: X with a fraction part, X/x text of 10^15 or more in absolute value or outside the years 1..9999, an empty [] escape, and token 'a' with non-ASCII day periods "
+               "are outside the modelled fragment (model answers 'unsupported'; not generated)",
+               "sessions: names passed to set_locale are ASCII and are either shipped locales (any spelling normalize_locale accepts) or names with no directory in pendulum/locales; "
+               "'' and '__pycache__' (directories that are not locales) are not generated",
                "the L/LT/LTS/LL/LLL/LLLL recursion depth is bounded by 4 in the model (no shipped locale nests date formats)"]
 
 SEP = "\x1f"
@@ -219,6 +238,15 @@ def cases(tier, seed):
         for t in NEEDS_WEEK_DATA:
             for s in days[:3]:
                 out.append({"stream": "locale-tokens", "fn": "format", "args": [loc, s, [["tok", t]]]})
+    # ordinals of every size in every locale: the day of the year reaches numbers (101, 108, 111, 211, 280, 301 ...) where the CLDR rule of a locale
+    # tests the number itself, not its last digits
+    ydays = [1, 2, 3, 4, 8, 11, 12, 13, 21, 22, 23, 31, 32, 80, 88, 100, 101, 102, 103, 108, 111, 112, 113, 121, 180, 188, 200, 201, 208, 211, 212, 280, 300, 301, 308, 311, 365, 366]
+    for li, loc in enumerate(LOCALES):
+        for yd in ydays:
+            dd = _dt.date(2024, 1, 1) + _dt.timedelta(days=yd - 1)
+            s = mk_dt("fixed", FIXED[(li + yd) % 10], 2024, dd.month, dd.day, yd % 24, yd % 60, (yd * 7) % 60, yd * 1000)
+            toks = ["DDDo", "Do", "Mo", "Qo", "wo", "do"]
+            out.append({"stream": "locale-ordinals", "fn": "format", "args": [loc, s, [["tok", t] if i % 2 == 0 else ["lit", SEP] for t in toks for i in (0, 1)][:-1]]})
     # 3. random sequences
     for _ in range(3000 if big else 500):
         parts = rand_sequence(rnd, ALL_TOKENS)
@@ -302,9 +330,201 @@ def cases(tier, seed):
             ("Tuesday", "dddd"), ("Tue 2020-02-29", "ddd YYYY-MM-DD"), ("2020-01-01 01", "YYYY-MM-DD YY"), ("5 5", "D D"), ("2020 12", "YYYY w"), ("2020", "YYYY L"),
             ("12:30", "H:m"), ("1:2:3", "H:m:s"), ("24:61:61", "HH:mm:ss"), ("2020-13-40", "YYYY-MM-DD"), ("Feb 30", "MMM D"), ("February", "MMMM"),
             ("Cumartesi", "dddd", "tr"), ("Cuma", "dddd", "tr"), ("mars 5", "MMMM D", "fr"), ("janv. 5", "MMM D", "fr"), ("janvX 5", "MMM D", "fr"), ("1er", "Do", "fr"), ("2e", "Do", "fr")]
+    # direct inputs for the timestamp tokens (integer text; with other tokens the timestamp wins and tz stays None)
+    misc += [("0", "X"), ("-1", "X"), ("+5", "X"), ("+5", "x"), ("-250", "x"), ("-1000", "x"), ("999", "x"), ("1000", "x"), ("-1", "x"), ("0", "x"), ("-0", "X"),
+             ("253402300799", "X"), ("-62135596800", "X"), ("253402300799999", "x"), ("-62135596800000", "x"), ("0004102444799", "X"),
+             ("4102444799 +05:30", "X Z"), ("2020 86400", "YYYY X"), ("86400 2020", "X YYYY"), ("13 PM 7", "H A X"), ("12x4", "X"), ("", "X"), ("1e3", "X"),
+             ("4102358400", "X"), ("4102358400000", "x"), ("-2208988800", "X"), ("-2209075200", "X"), ("951782400", "X"), ("-1", "X x"), ("5 6", "X x")]
     for m in misc:
         out.append({"stream": "parse-misc", "fn": "parse", "args": [m[2] if len(m) > 2 else "en", m[0], m[1], now]})
+    # 8. the timestamp tokens X / x at the structurally special places of the calendar, both directions
+    ts_cases = timestamp_cases(rnd, big, now)
+    out += ts_cases
+    for c in ts_cases[:: (7 if big else 23)]:
+        out.append({"stream": "nonmatching", "fn": "mismatch", "args": c["args"] + [rnd.randrange(3), rnd.randrange(1000)]})
+    # 9. whole process histories: the default locale changed (or a change REJECTED) between calls that rely on it
+    out += session_cases(rnd, big, seed, now)
     return _mark_week_dependent(out)
+
+
+# ----------------------------------------------------------------------------- timestamps
+TS_MIN = -62135596800           # 0001-01-01T00:00:00 UTC
+TS_MAX = 253402300799           # 9999-12-31T23:59:59 UTC
+_EPOCH = _dt.datetime(1970, 1, 1)
+TS_MICRO = [0, 999, 0, 1000, 0, 999999, 7, 123456, 0, 500000, 0, 1999, 999000]
+
+
+def special_instants(rnd, big):
+    """UTC wall-clock fields (y, mo, d, H, M, S) at the places where a calendar algorithm changes regime: the ends of every century
+    (the first century of a 400-year cycle is one day longer than the others), 400-year boundaries, year ends of every position in the
+    4-year cycle, leap days and the days around them (centurial leap, centurial common, ordinary), month ends, the first and last
+    representable seconds, the epoch and the powers of two / ten of the second count (where the rendered text changes length)."""
+    out = []
+
+    def add_ts(ts):
+        if TS_MIN <= ts <= TS_MAX:
+            u = _EPOCH + _dt.timedelta(seconds=ts)
+            out.append((u.year, u.month, u.day, u.hour, u.minute, u.second))
+
+    def ts_of(y, mo, d, H=0, M=0, S=0):
+        return (_dt.datetime(y, mo, d, H, M, S) - _EPOCH) // _dt.timedelta(seconds=1)
+
+    def boundary(y, mo, d, inner=True):
+        """the seconds around 00:00:00 of y-mo-d, and (inner) the whole previous day: its first second, a time inside it, its last second"""
+        t = ts_of(y, mo, d)
+        for k in ([-86401, -86400, -86399, -(rnd.randrange(2, 86399))] if inner else []) + [-1, 0, 1]:
+            add_ts(t + k)
+    # every century end (Dec 30 23:59:59 .. Jan 1 00:00:01 around years ..99 / ..00), 400-year boundaries included
+    for y in range(100, 10000, 100):
+        boundary(y, 1, 1)
+    # year ends: every position in the 4-year / 100-year / 400-year cycles near the usual suspects + a seeded sample
+    years = [2, 3, 4, 5, 99, 101, 399, 401, 1000, 1001, 1582, 1583, 1899, 1901, 1903, 1904, 1905, 1968, 1969, 1970, 1971, 1972, 1973, 1999, 2001, 2004, 2005,
+             2037, 2038, 2039, 2099, 2101, 2399, 2401, 9996, 9997, 9998, 9999]
+    years += [rnd.randrange(2, 10000) for _ in range(200 if big else 40)]
+    for y in years:
+        boundary(y, 1, 1, inner=False)
+    # leap days and their neighbours
+    leapish = [4, 100, 400, 1600, 1700, 1896, 1900, 1904, 1996, 2000, 2004, 2024, 2096, 2100, 2104, 2400, 9996] + [rnd.randrange(1, 2500) * 4 for _ in range(60 if big else 10)]
+    for y in leapish:
+        if 1 <= y <= 9999:
+            boundary(y, 2, 28, inner=False)
+            boundary(y, 3, 1)              # the whole last day of February (28th or 29th) and the first second of March
+    # month ends of a leap and of a common year
+    for y in (2023, 2024):
+        for mo in range(1, 13):
+            boundary(y, mo, 1, inner=False)
+    # the first and last representable seconds
+    for ts in (TS_MIN, TS_MIN + 1, TS_MIN + 86399, TS_MIN + 86400, TS_MAX, TS_MAX - 1, TS_MAX - 86399, TS_MAX - 86400):
+        add_ts(ts)
+    # the epoch, powers of two and ten of the count (text length, sign)
+    for b in [0, 86400, 2 ** 31, 2 ** 32, 2 ** 33, 2 ** 35, 2 ** 37] + [10 ** k for k in range(1, 12)]:
+        for sgn in (1, -1):
+            for k in (-1, 0, 1):
+                add_ts(sgn * b + k)
+    # seeded random instants, uniform in the second count and uniform in the year
+    for _ in range(600 if big else 60):
+        add_ts(rnd.randrange(TS_MIN, TS_MAX + 1))
+        y = rnd.randrange(1, 10000)
+        add_ts(ts_of(y, 1, 1) + rnd.randrange(0, 365 * 86400))
+    seen, uniq = set(), []
+    for f in out:
+        if f not in seen:
+            seen.add(f)
+            uniq.append(f)
+    return uniq
+
+
+def in_zone(f, us, k):
+    """the instant with UTC fields f, as a DateTime specification: in UTC, or (some k) the same instant in a fixed offset / named zone"""
+    u = _dt.datetime(*f, us)
+    if k % 9 == 4:
+        off = FIXED[(k // 9) % len(FIXED)]
+        try:
+            loc = u + _dt.timedelta(seconds=off)
+        except OverflowError:
+            return None
+        return mk_dt("fixed", off, loc.year, loc.month, loc.day, loc.hour, loc.minute, loc.second, us)
+    if k % 9 == 8:
+        import zoneinfo
+        z = ZONES[(k // 9) % len(ZONES)]
+        try:
+            loc = u.replace(tzinfo=_dt.timezone.utc).astimezone(zoneinfo.ZoneInfo(z))
+        except OverflowError:
+            return None
+        return mk_dt("zone", z, loc.year, loc.month, loc.day, loc.hour, loc.minute, loc.second, us, fold=loc.fold)
+    return mk_dt("zone", "UTC", *f, us)
+
+
+def timestamp_cases(rnd, big, now):
+    out = []
+    for k, f in enumerate(special_instants(rnd, big)):
+        us = TS_MICRO[k % len(TS_MICRO)]
+        s = in_zone(f, us, k)
+        if s is None:
+            continue
+        for tok in ("X", "x"):
+            out.append({"stream": "roundtrip-timestamp", "fn": "roundtrip", "args": ["en", s, [["tok", tok]], list(now), "ts"]})
+    # deterministic witnesses of finding x-negative-fraction (before the epoch, a millisecond part) and their passing neighbours
+    for f, us in (((1969, 12, 31, 23, 59, 59), 750000), ((1969, 12, 31, 23, 59, 58), 1000), ((1000, 1, 1, 0, 0, 0), 999999), ((1, 1, 1, 0, 0, 0), 500000),
+                  ((1969, 12, 31, 23, 59, 59), 999), ((1970, 1, 1, 0, 0, 0), 750000), ((1969, 12, 31, 23, 59, 59), 0)):
+        out.append({"stream": "roundtrip-timestamp", "fn": "roundtrip", "args": ["en", mk_dt("zone", "UTC", *f, us), [["tok", "x"]], list(now), "ts"]})
+    return out
+
+
+def expected_ts(s, tok):
+    """what from_format(dt.format(tok), tok) must return: the UTC fields of dt's instant, to the resolution of the token (None: outside 0001..9999 in UTC)"""
+    y, mo, d, H, M, S, us = s["f"]
+    ts = (_dt.datetime(y, mo, d, H, M, S) - _EPOCH) // _dt.timedelta(seconds=1) - s["off"]
+    if not (TS_MIN <= ts <= TS_MAX):
+        return None
+    u = _EPOCH + _dt.timedelta(seconds=ts)
+    return [u.year, u.month, u.day, u.hour, u.minute, u.second, 0 if tok == "X" else us // 1000 * 1000]
+
+
+# ----------------------------------------------------------------------------- sessions (process histories)
+REJECTED_NAMES = ["tlh", "xx_YY", "en_zz", "fr-FR", "english", "d"]
+SPELLINGS = {"en_gb": ["en_GB", "EN-gb", "en-GB"], "en_us": ["EN_US", "en-us"], "pt_br": ["pt-BR", "PT_br"], "fr": ["FR", "Fr"], "de": ["DE"], "ja": ["JA"], "ru": ["Ru"]}
+
+
+def norm_locale(name):
+    import re
+    m = re.match("([a-z]{2})[-_]([a-z]{2})", name, re.I)
+    return f"{m.group(1).lower()}_{m.group(2).lower()}" if m else name.lower()
+
+
+def _T(*xs):
+    return [["tok", x] if x.isalpha() and x.isascii() else ["lit", x] for x in xs]
+
+
+SESSION_FORMATS = [
+    (_T("YYYY", " ", "MMMM", " ", "DD"), "names"),
+    (_T("dddd", ", ", "YYYY", "-", "MM", "-", "DD"), "names"),
+    (_T("ddd", ", ", "DD", " ", "MMM", " ", "YYYY", " ", "HH", ":", "mm", ":", "ss", ".", "SSSSSS", " ", "ZZ"), "full"),
+    (_T("DD", "/", "YYYY", " ", "MMM"), "names"),
+    (_T("dddd", " ", "D", " ", "MMMM", " ", "YYYY", " ", "HH", ":", "mm", ":", "ss", ".", "SSSSSS", " ", "Z"), "full"),
+    (_T("YYYY", "-", "MM", "-", "DD", " ", "dd"), "names"),
+]
+
+
+def session_cases(rnd, big, seed, now):
+    """ONE case = a whole history executed in order in one process (the replay is self-contained): set_locale calls (shipped names in several
+    spellings, names that are REJECTED) interleaved with format()/from_format() calls that rely on the default locale or name one explicitly,
+    the SAME format string being used under different defaults.  Every output must be what the same call gives in a fresh process whose
+    default locale is the last successfully set one."""
+    out = []
+    n = len(LOCALES)
+    shifts = [1 + (seed * 5 + 3) % (n - 1)] + ([1 + (seed * 7 + 11) % (n - 1)] if big else [])
+    for i, A in enumerate(LOCALES):
+        for sh in shifts:
+            B = LOCALES[(i + sh) % n]
+            fsel = range(len(SESSION_FORMATS)) if big else [(i + seed + j * 2) % len(SESSION_FORMATS) for j in range(3)]
+            for j in fsel:
+                parts, shape = SESSION_FORMATS[j]
+                k = i * 7 + j * 3 + sh
+                s1 = mk_dt("fixed", FIXED[k % 10], 1990 + k % 60, 1 + k % 12, 1 + (k * 5) % 28, k % 24, (k * 7) % 60, (k * 11) % 60, (k * 7919) % 1000000)
+                s2 = mk_dt("fixed", FIXED[(k + 3) % 10], 2001 + k % 47, 1 + (k + 5) % 12, 1 + (k * 3) % 28, (k + 13) % 24, (k * 3) % 60, (k * 5) % 60, (k * 104729) % 1000000)
+                a_sp = rnd.choice(SPELLINGS.get(A, [A]) + [A])
+                b_sp = rnd.choice(SPELLINGS.get(B, [B]) + [B])
+                bad = REJECTED_NAMES[k % len(REJECTED_NAMES)]
+
+                def rt(loc, s):
+                    return ["rt", loc, s, parts, shape]
+                t = (i + j + sh) % 4
+                if t == 0:      # the default changes between two default-locale calls with the same format
+                    ops = [["set", A], rt(None, s1), ["set", b_sp], rt(None, s1), rt(A, s2), rt(None, s2), ["set", a_sp], rt(None, s2), ["get"]]
+                elif t == 1:    # rejected configuration calls in between
+                    ops = [["set", a_sp], rt(None, s1), ["set", bad], rt(None, s2), ["get"], ["set", B], ["set", bad], rt(None, s1), ["get"]]
+                elif t == 2:    # an explicit locale first, then the default one, and the other way round
+                    ops = [["set", A], rt(B, s1), rt(None, s1), ["set", B], rt(A, s2), rt(None, s2), rt("", s1)]
+                else:           # format() under the default as well
+                    ops = [["set", B], ["fmt", None, s1, parts], rt(None, s1), ["set", A], ["fmt", None, s1, parts], rt(None, s1), ["fmt", B, s2, parts], rt(None, s2)]
+                out.append({"stream": "session", "fn": "session", "args": [ops, list(now)]})
+    # direct parse inputs under a changing default (model comparison): English words are rejected once the default is French
+    out.append({"stream": "session", "fn": "session", "args": [[["set", "en"], ["parse", None, "February 29 2020", "MMMM D YYYY"], ["set", "fr"],
+                                                                  ["parse", None, "February 29 2020", "MMMM D YYYY"], ["parse", "en", "February 29 2020", "MMMM D YYYY"],
+                                                                  ["parse", None, "février 29 2020", "MMMM D YYYY"], ["set", "tlh"], ["parse", None, "février 29 2020", "MMMM D YYYY"],
+                                                                  ["get"], ["parse", "tlh", "2020", "YYYY"], ["fmt", "tlh", mk_dt("fixed", 0, 2020, 2, 29, 0, 0, 0, 0), _T("YYYY")]], list(now)]})
+    return out
 
 
 def _mark_week_dependent(cases_):
@@ -420,6 +640,58 @@ def mismatch_string(text, how, k):
     return text[: max(1, len(text) // 2)]
 
 
+def _session(pendulum, F, ops, now):
+    """run a whole history in this process; one canonical result per operation; the default locale is put back afterwards"""
+    saved = pendulum.get_locale()
+    nowdt = pendulum.datetime(*now)
+    res = []
+    try:
+        for op in ops:
+            try:
+                kind = op[0]
+                if kind == "set":
+                    pendulum.set_locale(op[1])
+                    res.append([0])
+                elif kind == "get":
+                    res.append([0, pendulum.get_locale()])
+                elif kind == "fmt":
+                    loc, sp, parts = op[1], op[2], op[3]
+                    dt = _build(pendulum, sp)
+                    res.append([0, dt.format(fmt_of(parts)) if loc is None else dt.format(fmt_of(parts), locale=loc)])
+                elif kind == "rt":
+                    loc, sp, parts, shape = op[1], op[2], op[3], op[4]
+                    dt = _build(pendulum, sp)
+                    fmt = fmt_of(parts)
+                    text = dt.format(fmt) if loc is None else dt.format(fmt, locale=loc)
+                    try:
+                        r = F.parse(text, fmt, nowdt) if loc is None else F.parse(text, fmt, nowdt, loc)
+                        row = [0, text, r["year"], r["month"], r["day"], r["hour"], r["minute"], r["second"], r["microsecond"]] + _tz_repr(r["tz"])
+                    except Exception as ex:  # noqa
+                        res.append([3, text, type(ex).__name__])
+                        continue
+                    try:
+                        g = pendulum.from_format(text, fmt) if loc is None else pendulum.from_format(text, fmt, locale=loc)
+                        o = g.utcoffset()
+                        ff = [g.year, g.month, g.day, g.hour, g.minute, g.second, g.microsecond, o.days * 86400 + o.seconds]
+                    except Exception as ex:  # noqa
+                        ff = [type(ex).__name__]
+                    res.append(row + [ff])
+                elif kind == "parse":
+                    loc, text, fmt = op[1], op[2], op[3]
+                    r = F.parse(text, fmt, nowdt) if loc is None else F.parse(text, fmt, nowdt, loc)
+                    res.append([0, r["year"], r["month"], r["day"], r["hour"], r["minute"], r["second"], r["microsecond"]] + _tz_repr(r["tz"]))
+                else:
+                    res.append([9])
+            except Exception as ex:  # noqa
+                res.append([1, type(ex).__name__])
+    finally:
+        try:
+            pendulum.set_locale(saved)
+        except Exception:  # noqa
+            pass
+    return res
+
+
 def impl_run(cases):
     import pendulum
     from pendulum.formatting import Formatter
@@ -457,7 +729,7 @@ def impl_run(cases):
                     out.append([3, text, type(ex).__name__])
                     continue
                 ff = None
-                if fn == "roundtrip" and a[4] in ("full", "full12", "fullz", "names"):
+                if fn == "roundtrip" and a[4] in ("full", "full12", "fullz", "names", "ts"):
                     # the public entry point (its own `now` is irrelevant when the format carries a full date)
                     try:
                         g = pendulum.from_format(text, fmt, locale=loc)
@@ -470,6 +742,8 @@ def impl_run(cases):
                 loc, text, fmt, now = a
                 r = F.parse(text, fmt, pendulum.datetime(*now), loc)
                 out.append([0, r["year"], r["month"], r["day"], r["hour"], r["minute"], r["second"], r["microsecond"]] + _tz_repr(r["tz"]))
+            elif fn == "session":
+                out.append([0, _session(pendulum, F, a[0], a[1])])
             else:
                 out.append([9])
         except Exception as ex:  # noqa
@@ -521,7 +795,42 @@ def model_calls(c, backend):
         for z in zs:
             args += enc(z)
         return [("fmt_parse", args + enc(loc) + enc(text) + enc(fmt))]
+    if fn == "session":
+        code = session_code(a[0])
+        return [("fmt_session", [k, rs] + list(a[1]) + code) for k in range(len(a[0]))]
     return None
+
+
+def enc_loc(loc):
+    return [0] if loc is None else [1] + enc(loc)
+
+
+def enc_zones(zs):
+    out = [len(zs)]
+    for z in zs:
+        out += enc(z)
+    return out
+
+
+def session_code(ops):
+    """the operations of a session as the integer list Model/DispatchC08.v decodes"""
+    code = []
+    for op in ops:
+        kind = op[0]
+        if kind == "set":
+            code += [1] + enc(op[1])
+        elif kind == "get":
+            code += [2]
+        elif kind == "fmt":
+            code += [3] + enc_loc(op[1]) + enc_dt(op[2]) + enc(fmt_of(op[3]))
+        elif kind == "rt":
+            sp = op[2]
+            code += [4] + enc_loc(op[1]) + enc_zones([sp["zname"]] if sp["kind"] == "zone" else []) + enc_dt(sp) + enc(fmt_of(op[3]))
+        elif kind == "parse":
+            code += [5] + enc_loc(op[1]) + enc_zones(zones_in(op[2])) + enc(op[2]) + enc(op[3])
+        else:
+            raise ValueError(kind)
+    return code
 
 
 def dec(l):
@@ -562,11 +871,36 @@ def model_result(c, backend, outs):
         if o[0] == 1:
             return [1, EXN_NAME.get(o[1], str(o[1]))]
         return [o[0]]
+    if fn == "session":
+        res = []
+        for op, o in zip(a[0], outs):
+            kind = op[0]
+            if o[0] == 1:
+                res.append([1, EXN_NAME.get(o[1], str(o[1]))])
+            elif o[0] == 3:
+                n = o[1]
+                res.append([3, dec(o[2:2 + n]), EXN_NAME.get(o[2 + n], str(o[2 + n]))])
+            elif o[0] != 0:
+                res.append([o[0]])
+            elif kind == "set":
+                res.append([0])
+            elif kind in ("get", "fmt"):
+                res.append([0, dec(o[1:])])
+            elif kind == "rt":
+                n = o[1]
+                res.append([0, dec(o[2:2 + n])] + _validated(o[2 + n:]))
+            else:
+                res.append([0] + _validated(o[1:]))
+        return [0, res]
     return o
 
 
 def same(c, m, r):
     fn = c["fn"]
+    if fn == "session":
+        if not (r and r[0] == 0 and m and m[0] == 0 and len(m[1]) == len(r[1])):
+            return m == r
+        return all(same({"fn": {"rt": "roundtrip"}.get(op[0], op[0])}, mm, rr) for op, mm, rr in zip(c["args"][0], m[1], r[1]))
     if fn == "roundtrip" and r and r[0] == 0:
         return m == r[:-1]           # the from_format echo is checked by the oracle
     if r and r[0] in (1, 3) and m and m[0] == r[0]:
@@ -586,6 +920,37 @@ def en_ordinal(n):
     if n % 10 == 3 and n % 100 != 13:
         return f"{n}rd"
     return f"{n}th"
+
+
+# the documented ordinal suffixes of the shipped locales (pendulum/locales/<locale>/custom.py, key "ordinal"), by CLDR ordinal category;
+# a locale that is not listed, or a category that is not listed for it, has no suffix: the ordinal is the bare number
+_DOT = {"one": ".", "two": ".", "few": ".", "other": "."}
+_EN = {"one": "st", "two": "nd", "few": "rd", "other": "th"}
+ORDINAL_SUFFIX = {"en": _EN, "en_gb": _EN, "en_us": _EN, "fr": {"one": "er", "other": "e"}, "it": {"other": "°"}, "es": {"other": "º"}, "he": {"other": "º"},
+                  "nl": {"other": "e"}, "fo": {"other": "."}, "cs": _DOT, "nb": _DOT, "nn": _DOT, "tr": _DOT}
+
+
+def cldr_ordinal_category(loc, n):
+    """Unicode CLDR, supplemental/ordinals.xml, for the locales whose rule is not just 'other' (the rules test the NUMBER, e.g. fr: n = 1; it: n = 11, 8, 80, 800)"""
+    if loc in ("en", "en_gb", "en_us"):
+        if n % 10 == 1 and n % 100 != 11:
+            return "one"
+        if n % 10 == 2 and n % 100 != 12:
+            return "two"
+        if n % 10 == 3 and n % 100 != 13:
+            return "few"
+        return "other"
+    if loc == "fr":
+        return "one" if n == 1 else "other"
+    if loc == "it":
+        return "many" if n in (11, 8, 80, 800) else "other"
+    if loc == "sv":
+        return "one" if n % 10 in (1, 2) and n % 100 not in (11, 12) else "other"
+    return "other"
+
+
+def ordinal_of(loc, n):
+    return f"{n}" + ORDINAL_SUFFIX.get(loc, {}).get(cldr_ordinal_category(loc, n), "")
 
 
 def expected_token(tok, s, loc="en"):
@@ -628,11 +993,9 @@ def expected_token(tok, s, loc="en"):
                  "ddd": calendar.day_abbr[date.weekday()], "dd": calendar.day_name[date.weekday()][:2]}
         if tok in names:
             return names[tok]
-    if en or loc == "en_gb":
-        names = {"Do": en_ordinal(d), "Mo": en_ordinal(mo), "Qo": en_ordinal((mo - 1) // 3 + 1), "DDDo": en_ordinal(yday), "wo": en_ordinal(wk),
-                 "do": en_ordinal(iso % 7)}
-        if tok in names:
-            return names[tok]
+    if tok in ("Do", "Mo", "Qo", "DDDo", "wo", "do"):
+        n = {"Do": d, "Mo": mo, "Qo": (mo - 1) // 3 + 1, "DDDo": yday, "wo": wk, "do": iso % 7}[tok]
+        return ordinal_of(loc, n)
     if en:
         if tok == "A":
             return t.strftime("%p")
@@ -735,7 +1098,8 @@ def oracle(c, backend, r):
             for tok, g in zip(toks, got):
                 e = expected_token(tok, s, loc)
                 if e is not None and g != e:
-                    return f"token {tok} of {s['f']} off={s['off']} locale={loc} rendered {g!r}, stdlib says {e!r}"
+                    ref = "the CLDR ordinal category of the number with the documented suffix gives" if tok.endswith("o") else "stdlib says"
+                    return f"token {tok} of {s['f']} off={s['off']} locale={loc} rendered {g!r}, {ref} {e!r}"
                 if e is None and tok in ("MMMM", "MMM", "dddd", "ddd", "dd") and not g:
                     return f"token {tok} locale={loc} rendered an empty name"
             return None
@@ -763,6 +1127,20 @@ def oracle(c, backend, r):
         if r[0] != 0:
             return f"from_format(dt.format({fmt!r}), {fmt!r}, locale={loc}) raised {r[-1]} (dt={s['f']} {s['zname']})"
         got = r[2:-1]
+        if shape == "ts":
+            tok = parts[0][1]
+            want_text = expected_token(tok, s, loc)
+            if r[1] != want_text:
+                return f"format({tok!r}) of {s['f']} off={s['off']} rendered {r[1]!r}, the standard library says {want_text!r}"
+            exp = expected_ts(s, tok)
+            if exp is None:
+                return None          # the instant is outside 0001..9999 in UTC: from_format has nothing to return
+            if got != exp + [0]:
+                return (f"parse(dt.format({tok!r}) = {r[1]!r}, {tok!r}) = {got}, expected the UTC fields {exp} of the instant and no zone "
+                        f"(dt={s['f']} off={s['off']})")
+            if r[-1] != exp + [0]:
+                return f"from_format({r[1]!r}, {tok!r}) = {r[-1]}, expected {exp + [0]} (dt={s['f']} off={s['off']})"
+            return None
         if shape == "weekday-only":
             dd = _dt.date(*got[:3])
             want = _dt.date(*s["f"][:3])
@@ -782,6 +1160,36 @@ def oracle(c, backend, r):
         if r[0] == 3 and r[2] == "ValueError":
             return None
         return f"a string that does not match the format did not raise ValueError: {r}"
+    if fn == "session":
+        ops, now = a
+        if r[0] != 0 or len(r[1]) != len(ops):
+            return f"the session did not run: {r}"
+        st = "en"                 # every generated session starts with a set_locale that is accepted
+        for i, (op, rr) in enumerate(zip(ops, r[1])):
+            kind = op[0]
+            why = None
+            if kind == "set":
+                if norm_locale(op[1]) in LOCALES:
+                    st = op[1]
+                    if rr != [0]:
+                        why = f"set_locale({op[1]!r}) of a shipped locale gave {rr}"
+                elif rr != [1, "ValueError"]:
+                    why = f"set_locale({op[1]!r}) of a name that is not shipped gave {rr}, expected ValueError"
+            elif kind == "get":
+                if rr != [0, st]:
+                    why = f"get_locale() = {rr}, the last accepted set_locale was {st!r}"
+            elif kind in ("fmt", "rt"):
+                eff = norm_locale(op[1] or st)
+                if eff not in LOCALES:
+                    continue
+                sub = {"fn": "format", "args": [eff, op[2], op[3]]} if kind == "fmt" else {"fn": "roundtrip", "args": [eff, op[2], op[3], now, op[4]]}
+                why = oracle(sub, backend, rr)
+                if why is not None:
+                    why += f" [locale argument {op[1]!r}, default locale {st!r}]"
+            if why is not None:
+                hist = ", ".join(f"set_locale({o[1]!r})" if o[0] == "set" else o[0] + ("" if len(o) < 2 or o[0] == "get" else f"(locale={o[1]!r})") for o in ops[:i])
+                return f"operation {i} of the history [{hist}]: {why}"
+        return None
     return None
 
 
@@ -801,6 +1209,13 @@ def known(c, backend, r):
             return "from-format-escape-unprotected"
         if loc == "tr" and parts[-1] == ["tok", "dddd"] and _dt.date(*s["f"][:3]).weekday() == 5 and r[0] == 0:
             return "tr-cumartesi-prefix"
+        # finding x-negative-fraction: the millisecond timestamp of an instant before the epoch that has a millisecond part comes back with
+        # the microseconds of the ABSOLUTE value's fraction (1000 - ms instead of ms); the second is right
+        if shape == "ts" and parts == [["tok", "x"]] and r[0] == 0:
+            ms = s["f"][6] // 1000
+            exp = expected_ts(s, "x")
+            if exp is not None and ms != 0 and expected_token("X", s).startswith("-") and r[2:-1] == exp[:6] + [(1000 - ms) * 1000, 0]:
+                return "x-negative-fraction"
         # finding rs-ordinal-month-end (status fixed: a reproduction is reported as a VIOLATION by the runner)
         if backend == "rs" and any(t in toks for t in ("DDDD", "DDD")) and s["f"][2] == calendar.monthrange(s["f"][0], s["f"][1])[1] \
                 and r[0] == 3 and r[2] == "ParserError":
@@ -812,9 +1227,16 @@ LEVEL_TEXT = ("Machine-checked Coq theorems about an executable model of Formatt
               "decimal rendering/parsing round trip, one theorem per numeric token (rendered text = padded decimal of the stdlib quantity, all years), "
               "verbatim escapes, the composition of every named format, and the from_format inverse for the fixed-width full date/time/fraction/offset class "
               "proved after the matching step, the day-of-year step (DDDD/DDD through pendulum.parse('YYYY-DDD')) proved equal to the calendar in both parser "
-              "backends (finding rs-ordinal-month-end repaired: from_format is backend-independent in the model); plus a three-way correspondence (implementation in both backends / model / stdlib oracle) over every token, "
+              "backends (finding rs-ordinal-month-end repaired: from_format is backend-independent in the model); the timestamp tokens X/x through from_format "
+              "(rendered count read back, local_time of either backend = the calendar for every second of the years 1..9999, hence from_format inverts format for X and — at or after the epoch "
+              "or on whole seconds — for x; before the epoch x is refuted with its exact wrong value, finding x-negative-fraction; the whole path computed in the kernel on 31 structurally special "
+              "instants x 2 tokens x 2 backends); a state machine for the process-wide default locale with failed_set_keeps_configuration, result_independent_of_history, "
+              "explicit_locale_independent_of_configuration; plus a three-way correspondence (implementation in both backends / model / stdlib oracle) over every token, "
               "27 locales, random token sequences and round trips.")
 DESIGN_REF = "DESIGN.md section 4 C08"
 LEVEL_NOTE = ("Trusted: Coq kernel+VM, the generators, the hand-written control flow of the model (fingerprinted + validated by correspondence), the model of CPython's re "
-              "for the constructs used. The regex matching step of from_format is validated by correspondence and stated as a hypothesis in the inverse theorem (_partial).")
+              "for the constructs used. The regex matching step of from_format is validated by correspondence and stated as a hypothesis in the inverse theorem (_partial). "
+              "Inside the Coq model (dispatch entries compared with the implementation): X/x of from_format with local_time per backend (fmt_roundtrip / fmt_parse), whole histories of "
+              "set_locale / format / parse (fmt_session). Oracle only: the corrupted strings of the nonmatching stream, pendulum.from_format's own result inside round trips and sessions "
+              "(its parts come from the modelled Formatter.parse).")
 TECHNIQUE = "Coq proof (induction on digit lists, lia, vm_compute on generated tables) over translated tables + differential correspondence + stdlib oracle"
